@@ -4,7 +4,15 @@ clauses of the statement that are not claimed."""
 
 PROPS = {
     'C17': {'scans': [], 'trusted': [], 'bounded': [], 'not_claimed': []},
-    'C16': {'scans': [], 'trusted': [], 'bounded': [], 'not_claimed': []},
+    'C16': {'scans': [], 'trusted': [],
+            'bounded': [{'name': 'remote_vs_direct_search', 'recipe': 'remote_equals_direct',
+                         'functions': 'Process._schedule_rpc.<run_callback> (reply = flattened outcome of the scheduled call), init() subscriptions '
+                                      'and their removal on close, LoopCommunicator/convert_to_comm: assumed in the contracts, exercised here',
+                         'bound': 'in-process LocalCommunicator; pause/pause-no-text/play/kill x 3 points (created, running, waiting) x rpc/broadcast '
+                                  'against a directly controlled twin; status x 3; unknown intent; 16 announcement histories with one tolerated '
+                                  'broadcast failure each; thorough tier adds a control message during a 6.5 s step'}],
+            'not_claimed': ['the exact subject text state_changed.<from>.<to> is checked by the bounded search only (enum values are not modelled)',
+                            'thread hand-over of RemoteProcessThreadController / LoopCommunicator (real threads are outside the family)']},
     'C12': {'scans': [], 'trusted': [], 'bounded': [], 'not_claimed': []},
     'C11': {'scans': [], 'trusted': [], 'bounded': [], 'not_claimed': []},
     'C10': {'scans': [], 'trusted': [],
